@@ -66,11 +66,10 @@ def confirm(pid, n, tests=True):
         res["test_seconds"] = int(time.time() - t0)
     sh("git checkout -q -- .", cwd=WT)
     ok = res.get("demo_ok") and (res.get("tests_ok") if tests else True)
-    res["status"] = "confirmed" if ok else "rejected"
+    res["status"] = ("confirmed" if tests else "demo-confirmed (test suite not yet run by me)") if ok else "rejected"
     if ok:
         dst = "/verif/seeded/%s/%s" % (pid, n)
-        shutil.rmtree(dst, ignore_errors=True)
-        os.makedirs(dst)
+        os.makedirs(dst, exist_ok=True)
         for f in os.listdir(src):
             fp = os.path.join(src, f)
             if os.path.isfile(fp) and os.path.getsize(fp) < 200000 and not os.access(fp, os.X_OK) or f == "run.sh":
